@@ -137,11 +137,34 @@ def run(ctx):
 
     nsteps = 2 + ch.draw(25, "nsteps")
     closed = False
+    made_cmds: list = []
     for _ in range(nsteps):
-        k = ch.weighted([8, 3, 2, 1, 2, 2, 1], "step")
+        k = ch.weighted([8, 3, 2, 1, 2, 2, 1, 1 if use_meta else 0], "step")
         ctx.steps += 1
+        if k == 7:
+            # a client annotates one node after the fact, the same way in both HUGRs: it shows on that node only
+            from hugr.hugr.node_port import Node as _N
+            idxs = [n.idx for n in p.hugr]
+            i = ch.pick(idxs, "annotate-node")
+            val = len(ctx.events)
+            t.hugr[_N(i)].metadata["note"] = val
+            p.hugr[_N(i)].metadata["note"] = val
+            ctx.ev(0, "annotate", i, val)
+            ctx.probe("annotated_after_the_fact")
+            check_hugrs("annotate")
+            continue
         if k in (0, 1):  # add / extend
             cmds = do_cmd(1 if k == 0 else 1 + ch.draw(3, "n-cmds"))
+            reuse_hit = None
+            if made_cmds and ch.coin(1, 4, "reuse-command-object"):
+                # a Command is a value: the same object may be added again later, when its indices denote other wires
+                spec, obj = ch.pick(made_cmds, "which-command")
+                # (not Noop: an operation whose type is filled in at its first use is not a value to use twice)
+                ok = "*" not in spec[2] and all((0 <= a[1] < len(model) and model[a[1]] is not None and (kk == "*" or model[a[1]][1] == kk)) if a[0] == "int"
+                         else a[1] in wires for a, kk in zip(spec[4], spec[2]))
+                if ok:
+                    cmds, reuse_hit, k = [spec], obj, 0
+                    ctx.probe("command_object_added_again")
             if not cmds:
                 ctx.ev(0, "noop")
                 continue
@@ -181,6 +204,10 @@ def run(ctx):
             err = None
             try:
                 tc = [Command(mk(), ta) for _, mk, ta in tcmds]
+                if reuse_hit is not None:
+                    tc = [reuse_hit]
+                elif len(tc) == 1 and not expect_err:
+                    made_cmds.append((cmds[0], tc[0]))
                 if via_extend:
                     tnodes = t.extend(*tc)
                 else:
@@ -299,6 +326,25 @@ def run(ctx):
             closed = True
             break
     # close: outputs from indices
+    if ch.coin(1, 4, "refused-close-first"):
+        # fault, then workload: outputs named by an index that is not tracked (after some that are) are refused, the
+        # caller catches the error and closes properly
+        good = [i for i, e in enumerate(model) if e is not None][:2]
+        bad = ch.pick([i for i, e in enumerate(model) if e is None] + [len(model)], "bad-out-idx")
+        try:
+            t.set_indexed_outputs(*good, bad)
+            got = "returned"
+        except IndexError:
+            got = "IndexError"
+        except Exception as e:  # noqa: BLE001
+            got = type(e).__name__
+        ctx.ev(0, "set_indexed_outputs", [*good, bad], got)
+        ctx.fault("untracked_index_then_continue")
+        ctx.checked("indexerror")
+        if got != "IndexError":
+            ctx.violate("indexerror", f"untracked-index-accepted:set_indexed_outputs:{got}", {"index": bad}, stop=True)
+        check_tracked("refused-set_indexed_outputs")
+        check_hugrs("refused-set_indexed_outputs")
     if ch.coin(1, 2, "close-tracked"):
         t.set_tracked_outputs()
         outs = [e[0] for e in model if e is not None]
